@@ -258,7 +258,7 @@ class Repo:
         out = []
         for f in self.all_funcs():
             for n in walk_own(f.node):
-                if isinstance(n, ast.Call) and self.resolve_call(f, n) is target:
+                if isinstance(n, ast.Call) and same_func(self.resolve_call(f, n), target):
                     out.append((f, n))
         return out
 
@@ -459,76 +459,481 @@ class _Rename(ast.NodeTransformer):
         return node
 
 
-def inline_tail_calls(repo, func, depth=2):
-    """Copy of the function AST in which a statement `return helper(args)` / `x = helper(args)` at the top level of the
-    body, where helper is a function of the same module, is replaced by the helper's body: parameters bound to simple
-    names are renamed to those names, parameters bound to other expressions are substituted where they are only read
-    (or assigned first when the helper writes them).  For `x = helper(...)` only helpers whose single return is their
-    last statement are inlined (the return becomes the assignment)."""
+class _NotInlinable(Exception):
+    pass
+
+
+def _contains_return(st):
+    return any(isinstance(x, ast.Return) for x in ast.walk(st))
+
+
+def _always_returns(stmts):
+    if not stmts:
+        return False
+    last = stmts[-1]
+    if isinstance(last, (ast.Return, ast.Raise)):
+        return True
+    if isinstance(last, ast.If):
+        return _always_returns(last.body) and _always_returns(last.orelse)
+    return False
+
+
+def returns_to_assign(stmts, make):
+    """Statement list of a helper body in which every `return e` is replaced by make(e) (an assignment or a return
+    in the caller); code after an `if` one of whose arms returns is moved into the other arm.  Raises _NotInlinable when a
+    return sits inside a loop / try / with (its continuation cannot be expressed without a jump)."""
+    import copy
+
+    out = []
+    for i, st in enumerate(stmts):
+        if isinstance(st, ast.Return):
+            out.append(ast.copy_location(make(st.value if st.value is not None else ast.Constant(value=None)), st))
+            return out
+        if isinstance(st, ast.If) and _contains_return(st):
+            rest = stmts[i + 1 :]
+            b = returns_to_assign(list(st.body) + ([] if _always_returns(st.body) else copy.deepcopy(rest)), make)
+            o = returns_to_assign(list(st.orelse) + ([] if _always_returns(st.orelse) else copy.deepcopy(rest)), make)
+            node = ast.copy_location(ast.If(test=st.test, body=b or [ast.Pass()], orelse=o), st)
+            out.append(node)
+            return out
+        if _contains_return(st):
+            raise _NotInlinable()
+        out.append(st)
+    # falling off the end returns None
+    out.append(make(ast.Constant(value=None)))
+    return out
+
+
+def inline_tail_calls(repo, func, depth=2, keep=None):
+    """Copy of the function AST in which a statement `return helper(args)` / `x = helper(args)` / `x, y = helper(args)`
+    (in any block of the function), where helper is a function of the same module with a multi-statement body, is
+    replaced by the helper's body: parameters bound to simple names are renamed to those names, parameters bound to other
+    expressions are substituted where they are only read (or assigned first when the helper writes them); every `return e`
+    of the helper becomes the assignment / return of the call site (helpers returning from inside a loop are left alone)."""
     import copy
 
     root = copy.deepcopy(func.node)
+    changed_any = [False]
+    caller_names = {x.id for x in ast.walk(func.node) if isinstance(x, ast.Name)} | set(func.params)
+
+    def expand(st):
+        """-> replacement statement list or None"""
+        call = None
+        kind = None
+        if isinstance(st, ast.Return) and isinstance(st.value, ast.Call):
+            call, kind = st.value, "return"
+        elif isinstance(st, ast.Assign) and isinstance(st.value, ast.Call) and len(st.targets) == 1:
+            call, kind = st.value, "assign"
+        elif isinstance(st, ast.Expr) and isinstance(st.value, ast.Call):
+            call, kind = st.value, "expr"
+        callee = repo.resolve_call(func, call) if call is not None else None
+        if callee is None or callee is func or same_func(callee, func) or callee.module is not func.module or callee.cls != func.cls and callee.cls is not None:
+            return None
+        if any(isinstance(x, (ast.Yield, ast.YieldFrom)) for x in ast.walk(callee.node)):
+            return None
+        if keep is not None and keep(callee):
+            return None
+        cbody = [x for x in callee.node.body if not (isinstance(x, ast.Expr) and isinstance(x.value, ast.Constant))]
+        if (len(cbody) < 2 and kind != "expr") or any(isinstance(a, ast.Starred) for a in call.args):
+            return None  # single-return helpers are handled by expression inlining
+        if kind == "expr" and (callee.cls is not None or any(isinstance(x, ast.Return) and x.value is not None for x in ast.walk(callee.node))):
+            return None  # only plain procedures (module-level, no result) are inlined at statement calls
+        params = callee.params[1:] if (callee.cls and isinstance(call.func, ast.Attribute)) else callee.params
+        amap = {p_: a for p_, a in zip(params, call.args)}
+        for k in call.keywords:
+            if k.arg:
+                amap[k.arg] = k.value
+        for p_, d in zip(reversed(callee.node.args.args), reversed(callee.node.args.defaults)):
+            amap.setdefault(p_.arg, d)
+        if any(p_ not in amap for p_ in params):
+            return None
+        written = set()
+        for x in ast.walk(callee.node):
+            if isinstance(x, ast.Name) and isinstance(x.ctx, ast.Store):
+                written.add(x.id)
+        names, exprs, pre = {}, {}, []
+        for p_, a in amap.items():
+            if isinstance(a, ast.Name):
+                names[p_] = a.id
+            elif p_ in written or any(isinstance(x, ast.Call) for x in ast.walk(a)):
+                # evaluated once, like the call does
+                local = p_ if p_ not in caller_names else f"{p_}__{callee.name}"
+                if local != p_:
+                    names[p_] = local
+                pre.append(ast.copy_location(ast.Assign(targets=[ast.Name(id=local, ctx=ast.Store())], value=copy.deepcopy(a)), st))
+            else:
+                exprs[p_] = a
+        body = [_Rename(names, exprs).visit(copy.deepcopy(x)) for x in cbody]
+        rets = [x for b_ in body for x in ast.walk(b_) if isinstance(x, ast.Return)]
+        if kind == "assign":
+            tg = st.targets[0]
+            pairs = None
+            if len(rets) == 1 and body[-1] is rets[0]:
+                last = rets[0]
+                if isinstance(tg, ast.Name) and isinstance(last.value, ast.Name):
+                    pairs = [(last.value.id, tg.id)]
+                elif isinstance(tg, ast.Tuple) and isinstance(last.value, ast.Tuple) and len(tg.elts) == len(last.value.elts) and all(isinstance(x, ast.Name) for x in list(tg.elts) + list(last.value.elts)):
+                    pairs = [(a.id, b.id) for a, b in zip(last.value.elts, tg.elts)]
+                used = {x.id for b_ in body[:-1] for x in ast.walk(b_) if isinstance(x, ast.Name)}
+                if pairs and len({a for a, _ in pairs}) == len(pairs) and all(a in written and a not in amap and (b == a or b not in used) for a, b in pairs):
+                    # the helper's result variables become the caller's variables (no alias assignment left behind)
+                    ren = {a: b for a, b in pairs if a != b}
+                    return pre + [_Rename(ren, {}).visit(x) for x in body[:-1]]
+            try:
+                body = returns_to_assign(body, lambda v: ast.Assign(targets=copy.deepcopy(st.targets), value=v))
+            except _NotInlinable:
+                return None
+        elif kind == "expr":
+            try:
+                body = returns_to_assign(body, lambda v: ast.Pass())
+            except _NotInlinable:
+                return None
+        else:
+            try:
+                body = returns_to_assign(body, lambda v: ast.Return(value=v))
+            except _NotInlinable:
+                return None
+        return pre + body
+
+    def block(stmts):
+        out = []
+        for st in stmts:
+            rep = expand(st)
+            if rep is not None:
+                changed_any[0] = True
+                out.extend(rep)
+                continue
+            for fld in ("body", "orelse", "finalbody"):
+                lst = getattr(st, fld, None)
+                if isinstance(lst, list) and lst and isinstance(lst[0], ast.stmt) and not isinstance(st, (ast.FunctionDef, ast.AsyncFunctionDef, ast.ClassDef)):
+                    setattr(st, fld, block(lst))
+            if isinstance(st, ast.Try):
+                for h in st.handlers:
+                    h.body = block(h.body)
+            out.append(st)
+        return out
+
     for _ in range(depth):
-        changed = False
-        new_body = []
-        for st in root.body:
-            call = None
-            kind = None
-            if isinstance(st, ast.Return) and isinstance(st.value, ast.Call):
-                call, kind = st.value, "return"
-            elif isinstance(st, ast.Assign) and isinstance(st.value, ast.Call) and len(st.targets) == 1:
-                call, kind = st.value, "assign"
-            callee = repo.resolve_call(func, call) if call is not None else None
-            if callee is None or callee is func or callee.module is not func.module or callee.cls != func.cls and callee.cls is not None:
-                new_body.append(st)
-                continue
-            cbody = [x for x in callee.node.body if not (isinstance(x, ast.Expr) and isinstance(x.value, ast.Constant))]
-            rets = [x for x in ast.walk(callee.node) if isinstance(x, ast.Return)]
-            if len(cbody) < 2 or any(isinstance(a, ast.Starred) for a in call.args):
-                new_body.append(st)  # single-return helpers are handled by expression inlining
-                continue
-            if kind == "assign" and not (len(rets) == 1 and cbody[-1] is rets[0]):
-                new_body.append(st)
-                continue
-            params = callee.params[1:] if (callee.cls and isinstance(call.func, ast.Attribute)) else callee.params
-            amap = {p_: a for p_, a in zip(params, call.args)}
-            for k in call.keywords:
-                if k.arg:
-                    amap[k.arg] = k.value
-            for p_, d in zip(reversed(callee.node.args.args), reversed(callee.node.args.defaults)):
-                amap.setdefault(p_.arg, d)
-            if any(p_ not in amap for p_ in params):
-                new_body.append(st)
-                continue
-            written = set()
-            for x in ast.walk(callee.node):
-                if isinstance(x, ast.Name) and isinstance(x.ctx, ast.Store):
-                    written.add(x.id)
-            names, exprs, pre = {}, {}, []
-            for p_, a in amap.items():
-                if isinstance(a, ast.Name):
-                    names[p_] = a.id
-                elif p_ in written:
-                    pre.append(ast.copy_location(ast.Assign(targets=[ast.Name(id=p_, ctx=ast.Store())], value=copy.deepcopy(a)), st))
-                else:
-                    exprs[p_] = a
-            body = [_Rename(names, exprs).visit(copy.deepcopy(x)) for x in cbody]
-            if kind == "assign":
-                last = body[-1]
-                body[-1] = ast.copy_location(ast.Assign(targets=st.targets, value=last.value), last)
-            new_body.extend(pre + body)
-            changed = True
-        root.body = new_body
-        if not changed:
+        changed_any[0] = False
+        root.body = block(root.body)
+        if not changed_any[0]:
             break
     ast.fix_missing_locations(root)
     return root
 
 
-def tail_inlined(repo, func):
-    node = inline_tail_calls(repo, func)
+def tail_inlined(repo, func, keep=None):
+    node = inline_tail_calls(repo, func, keep=keep)
     f2 = Func(func.module, func.qualname, node, func.cls, func.parent)
     return f2
+
+
+def const_fold(expr, consts, depth=0):
+    """Value of a literal expression over str / int / list / tuple constants and module-level constants
+    (`"\\t".join(["%s"] * 6 + ["%d"] * 6)`); raises ValueError when the expression is not such a constant."""
+    if depth > 6:
+        raise ValueError("too deep")
+    if isinstance(expr, ast.Constant) and isinstance(expr.value, (str, int)) and not isinstance(expr.value, bool):
+        return expr.value
+    if isinstance(expr, ast.Name) and expr.id in consts:
+        return const_fold(consts[expr.id], consts, depth + 1)
+    if isinstance(expr, (ast.List, ast.Tuple)):
+        vals = [const_fold(e, consts, depth + 1) for e in expr.elts]
+        return vals if isinstance(expr, ast.List) else tuple(vals)
+    if isinstance(expr, ast.BinOp) and isinstance(expr.op, (ast.Add, ast.Mult, ast.Mod)):
+        l, r = const_fold(expr.left, consts, depth + 1), const_fold(expr.right, consts, depth + 1)
+        if isinstance(expr.op, ast.Add) and type(l) is type(r):
+            return l + r
+        if isinstance(expr.op, ast.Mult) and (isinstance(l, int) and isinstance(r, (str, list, tuple)) or isinstance(r, int) and isinstance(l, (str, list, tuple))):
+            n = l if isinstance(l, int) else r
+            if 0 <= n <= 64:
+                return l * r
+        if isinstance(expr.op, ast.Mod) and isinstance(l, str) and "%" in l and isinstance(r, (str, int, tuple)):
+            try:
+                return l % r
+            except (TypeError, ValueError):
+                pass
+        raise ValueError("not a constant")
+    if isinstance(expr, ast.Call) and isinstance(expr.func, ast.Attribute) and expr.func.attr == "join" and len(expr.args) == 1 and not expr.keywords:
+        sep = const_fold(expr.func.value, consts, depth + 1)
+        items = const_fold(expr.args[0], consts, depth + 1)
+        if isinstance(sep, str) and isinstance(items, (list, tuple)) and all(isinstance(x, str) for x in items):
+            return sep.join(items)
+    raise ValueError("not a constant")
+
+
+class _ConstSubst(ast.NodeTransformer):
+    def __init__(self, values, shadow):
+        self.values, self.shadow = values, shadow
+
+    def visit_Name(self, node):
+        if isinstance(node.ctx, ast.Load) and node.id in self.values and node.id not in self.shadow:
+            return ast.copy_location(ast.Constant(value=self.values[node.id]), node)
+        return node
+
+
+def with_str_consts(func):
+    """A Func in which loads of module-level *string* constants (literal or constant-foldable) are replaced by the
+    literal, so that `FMT % (...)` is analysed like `"...literal..." % (...)`."""
+    import copy
+
+    values = {}
+    for name, e in func.module.consts.items():
+        try:
+            v = const_fold(e, func.module.consts)
+        except (ValueError, RecursionError):
+            continue
+        if isinstance(v, str):
+            values[name] = v
+    if not values:
+        return func
+    shadow = {n.id for n in ast.walk(func.node) if isinstance(n, ast.Name) and isinstance(n.ctx, ast.Store)} | set(func.params)
+    if not any(isinstance(n, ast.Name) and n.id in values and n.id not in shadow for n in ast.walk(func.node)):
+        return func
+    node = _ConstSubst(values, shadow).visit(copy.deepcopy(func.node))
+    ast.fix_missing_locations(node)
+    return Func(func.module, func.qualname, node, func.cls, func.parent)
+
+
+def inline_bool_temps(func):
+    """A Func in which a boolean temporary (`flag = x is not None`, single assignment, operands never reassigned) is
+    replaced by its definition wherever it is read inside a test (if / while / conditional expression / assert)."""
+    import copy
+
+    defs = local_defs(func.node)
+    stored = {}
+    for n in ast.walk(func.node):
+        if isinstance(n, ast.Name) and isinstance(n.ctx, (ast.Store, ast.Del)):
+            stored[n.id] = stored.get(n.id, 0) + 1
+    cands = {}
+    for name, ds in defs.items():
+        if len(ds) != 1 or ds[0] is None or stored.get(name, 0) != 1 or name in func.params:
+            continue
+        d = ds[0]
+        if not isinstance(d, (ast.Compare, ast.BoolOp, ast.Attribute)) and not (isinstance(d, ast.UnaryOp) and isinstance(d.op, ast.Not)):
+            continue
+        if any(isinstance(x, (ast.Call, ast.NamedExpr, ast.Await, ast.Yield)) for x in ast.walk(d)):
+            continue
+        if any(isinstance(x, ast.Name) and stored.get(x.id, 0) > (0 if x.id in func.params else 1) for x in ast.walk(d)):
+            continue
+        cands[name] = d
+    if not cands:
+        return func
+
+    class T(ast.NodeTransformer):
+        def __init__(self):
+            self.in_test = 0
+
+        def _test(self, node, field="test"):
+            self.in_test += 1
+            setattr(node, field, self.visit(getattr(node, field)))
+            self.in_test -= 1
+
+        def visit_If(self, node):
+            self._test(node)
+            node.body = [self.visit(x) for x in node.body]
+            node.orelse = [self.visit(x) for x in node.orelse]
+            return node
+
+        def visit_While(self, node):
+            return self.visit_If(node)
+
+        def visit_IfExp(self, node):
+            self._test(node)
+            node.body = self.visit(node.body)
+            node.orelse = self.visit(node.orelse)
+            return node
+
+        def visit_Assert(self, node):
+            self._test(node)
+            return node
+
+        def visit_Name(self, node):
+            if self.in_test and isinstance(node.ctx, ast.Load) and node.id in cands:
+                return ast.copy_location(copy.deepcopy(cands[node.id]), node)
+            return node
+
+    root = T().visit(copy.deepcopy(func.node))
+    ast.fix_missing_locations(root)
+    return Func(func.module, func.qualname, root, func.cls, func.parent)
+
+
+class _GetattrConst(ast.NodeTransformer):
+    def visit_Call(self, node):
+        self.generic_visit(node)
+        if isinstance(node.func, ast.Name) and node.func.id == "getattr" and len(node.args) == 2 and not node.keywords and isinstance(node.args[1], ast.Constant) and isinstance(node.args[1].value, str) and node.args[1].value.isidentifier():
+            return ast.copy_location(ast.Attribute(value=node.args[0], attr=node.args[1].value, ctx=ast.Load()), node)
+        return node
+
+
+def unroll_const_loops(func, limit=8):
+    """A Func in which `for x in (c1, ..., cn)` over a short literal (or module-level constant) tuple of constants, whose
+    body has no break / continue of its own, is unrolled: one copy of the body per constant with x replaced by it and the
+    body's own temporaries renamed per copy; `getattr(o, "name")` is written `o.name`."""
+    import copy
+
+    changed = [False]
+    consts = func.module.consts
+
+    def own_jump(stmts):
+        for st in stmts:
+            if isinstance(st, (ast.Continue, ast.Break)):
+                return True
+            if isinstance(st, (ast.For, ast.While, ast.FunctionDef, ast.AsyncFunctionDef, ast.ClassDef)):
+                continue
+            for fld in ("body", "orelse", "finalbody"):
+                if own_jump(getattr(st, fld, []) or []):
+                    return True
+            if isinstance(st, ast.Try) and any(own_jump(h.body) for h in st.handlers):
+                return True
+        return False
+
+    all_names = {}
+    for n in ast.walk(func.node):
+        if isinstance(n, ast.Name):
+            all_names[n.id] = all_names.get(n.id, 0) + 1
+
+    def block(stmts):
+        out = []
+        for st in stmts:
+            for fld in ("body", "orelse", "finalbody"):
+                lst = getattr(st, fld, None)
+                if isinstance(lst, list) and lst and isinstance(lst[0], ast.stmt) and not isinstance(st, (ast.FunctionDef, ast.AsyncFunctionDef, ast.ClassDef)):
+                    setattr(st, fld, block(lst))
+            if isinstance(st, ast.For) and isinstance(st.target, ast.Name) and not st.orelse:
+                it = st.iter
+                if isinstance(it, ast.Name) and it.id in consts:
+                    it = consts[it.id]
+                if isinstance(it, (ast.Tuple, ast.List)) and 1 <= len(it.elts) <= limit and all(isinstance(e, ast.Constant) for e in it.elts) and not own_jump(st.body):
+                    inside = {}
+                    for b_ in st.body:
+                        for x in ast.walk(b_):
+                            if isinstance(x, ast.Name):
+                                inside[x.id] = inside.get(x.id, 0) + 1
+                    assigned = {x.id for b_ in st.body for x in ast.walk(b_) if isinstance(x, ast.Name) and isinstance(x.ctx, ast.Store)}
+                    temps = {nm for nm in assigned if inside[nm] == all_names.get(nm, 0) and nm != st.target.id}
+                    for k, c in enumerate(it.elts):
+                        ren = {nm: f"{nm}__{k}" for nm in temps}
+                        for b_ in st.body:
+                            nb = _Rename(ren, {st.target.id: c}).visit(copy.deepcopy(b_))
+                            out.append(nb)
+                    changed[0] = True
+                    continue
+            out.append(st)
+        return out
+
+    root = copy.deepcopy(func.node)
+    root.body = block(root.body)
+    root = _GetattrConst().visit(root)
+    if not changed[0] and ast.dump(root) == ast.dump(func.node):
+        return func
+    ast.fix_missing_locations(root)
+    return Func(func.module, func.qualname, root, func.cls, func.parent)
+
+
+def rotate_primed_loops(func):
+    """A Func in which a primed loop   A; while c: B; A   (A = the same statements, textually, before the loop and at the
+    end of its body; no `continue` in B) is written in the rotated form   while True: A; if not c: break; B."""
+    import copy
+
+    changed = [False]
+
+    def own_continue(stmts):
+        for st in stmts:
+            if isinstance(st, ast.Continue):
+                return True
+            if isinstance(st, (ast.For, ast.While, ast.FunctionDef, ast.AsyncFunctionDef, ast.ClassDef)):
+                continue
+            for fld in ("body", "orelse", "finalbody"):
+                if own_continue(getattr(st, fld, []) or []):
+                    return True
+            if isinstance(st, ast.Try) and any(own_continue(h.body) for h in st.handlers):
+                return True
+        return False
+
+    def block(stmts):
+        out = []
+        for st in stmts:
+            for fld in ("body", "orelse", "finalbody"):
+                lst = getattr(st, fld, None)
+                if isinstance(lst, list) and lst and isinstance(lst[0], ast.stmt) and not isinstance(st, (ast.FunctionDef, ast.AsyncFunctionDef, ast.ClassDef)):
+                    setattr(st, fld, block(lst))
+            if isinstance(st, ast.Try):
+                for h in st.handlers:
+                    h.body = block(h.body)
+            if isinstance(st, ast.While) and not st.orelse and not (isinstance(st.test, ast.Constant) and st.test.value is True):
+                k = 0
+                while k < len(out) and k < len(st.body) - 1 and norm(out[-1 - k]) == norm(st.body[-1 - k]) and isinstance(out[-1 - k], (ast.Assign, ast.Expr, ast.AugAssign)):
+                    k += 1
+                if k >= 1 and not own_continue(st.body[:-k]):
+                    a = out[len(out) - k :]
+                    del out[len(out) - k :]
+                    brk = ast.copy_location(ast.If(test=ast.UnaryOp(op=ast.Not(), operand=st.test), body=[ast.Break()], orelse=[]), st)
+                    new = ast.copy_location(ast.While(test=ast.Constant(value=True), body=a + [brk] + st.body[:-k], orelse=[]), st)
+                    out.append(new)
+                    changed[0] = True
+                    continue
+            out.append(st)
+        return out
+
+    root = copy.deepcopy(func.node)
+    root.body = block(root.body)
+    if not changed[0]:
+        return func
+    ast.fix_missing_locations(root)
+    return Func(func.module, func.qualname, root, func.cls, func.parent)
+
+
+class _IfExpStmt(ast.NodeTransformer):
+    def _split(self, st, val, rebuild):
+        test = val.test
+        a, b = rebuild(val.body), rebuild(val.orelse)
+        node = ast.If(test=test, body=[self.visit(a)] if not isinstance(self.visit(a), list) else self.visit(a), orelse=[b])
+        node.orelse = [x for y in node.orelse for x in (self.visit(y) if isinstance(self.visit(y), list) else [self.visit(y)])]
+        return ast.copy_location(node, st)
+
+    def visit_Assign(self, st):
+        if isinstance(st.value, ast.IfExp):
+            return self._split(st, st.value, lambda v: ast.copy_location(ast.Assign(targets=st.targets, value=v), st))
+        v = st.value
+        if isinstance(v, ast.BoolOp) and isinstance(v.op, ast.Or) and len(v.values) == 2 and isinstance(v.values[0], (ast.Name, ast.Attribute)):
+            # x = a or b   ==   if a: x = a   else: x = b
+            ife = ast.IfExp(test=v.values[0], body=v.values[0], orelse=v.values[1])
+            return self._split(st, ife, lambda w: ast.copy_location(ast.Assign(targets=st.targets, value=w), st))
+        if len(st.targets) == 1 and isinstance(st.targets[0], ast.Tuple) and isinstance(v, ast.Tuple) and len(v.elts) == len(st.targets[0].elts) and all(isinstance(t, ast.Name) for t in st.targets[0].elts):
+            # a, b = x, y  with x, y not reading a, b   ==   a = x; b = y
+            tnames = {t.id for t in st.targets[0].elts}
+            if not any(isinstance(n, ast.Name) and n.id in tnames for e in v.elts for n in ast.walk(e)):
+                out = []
+                for t, e in zip(st.targets[0].elts, v.elts):
+                    r = self.visit(ast.copy_location(ast.Assign(targets=[t], value=e), st))
+                    out.extend(r if isinstance(r, list) else [r])
+                return out
+        return st
+
+    def visit_Return(self, st):
+        if isinstance(st.value, ast.IfExp):
+            return self._split(st, st.value, lambda v: ast.copy_location(ast.Return(value=v), st))
+        return st
+
+    def visit_FunctionDef(self, node):
+        if getattr(self, "_root", None) is None:
+            self._root = node
+            self.generic_visit(node)
+        return node
+
+    visit_Lambda = lambda self, node: node  # noqa: E731
+
+
+def desugar_ifexp(func):
+    """A Func in which `x = a if c else b` / `return a if c else b` statements are written as if/else statements."""
+    import copy
+
+    node = _IfExpStmt().visit(copy.deepcopy(func.node))
+    if ast.dump(node) == ast.dump(func.node):
+        return func
+    ast.fix_missing_locations(node)
+    return Func(func.module, func.qualname, node, func.cls, func.parent)
 
 
 def same_func(a, b):
